@@ -512,4 +512,88 @@ theorem intersectGo_placeable (cfg : Cfg) (output : List CId) (skip : Bool) (res
     · exact h2 x (by simp)
     · exact h1 x hx
 
+/-! ### prune_inputs -/
+
+open Model.Preprocess in
+theorem pruneStep_used (st : List CId × List (List CId)) (ti : Model.Preprocess.Tr × Info) :
+    (pruneStep st ti).1 = st.1 ++ (ti.2.reads.getD []) := by
+  unfold pruneStep; cases ti.1 <;> rfl
+
+open Model.Preprocess in
+/-- every pruned list is a sublist of an instance's columns: nothing is invented or reordered -/
+theorem pruneStep_sublists (st : List CId × List (List CId)) (ti : Model.Preprocess.Tr × Info)
+    (P : List CId → Prop) (h : ∀ l ∈ st.2, P l)
+    (hf : ∀ (cols used : List CId), (ti.1 = .from cols ∨ ∃ sd f, ti.1 = .join sd cols f) → P (cols.filter (used.contains ·))) :
+    ∀ l ∈ (pruneStep st ti).2, P l := by
+  unfold pruneStep
+  cases hti : ti.1 with
+  | «from» cols =>
+    intro l hl
+    simp only [List.mem_append, List.mem_singleton] at hl
+    rcases hl with hl | rfl
+    · exact h l hl
+    · exact hf cols _ (.inl hti)
+  | join sd cols f =>
+    intro l hl
+    simp only [List.mem_append, List.mem_singleton] at hl
+    rcases hl with hl | rfl
+    · exact h l hl
+    · exact hf cols _ (.inr ⟨sd, f, hti⟩)
+  | _ => exact h
+
+open Model.Preprocess in
+/-- what is kept of an instance: exactly the columns mentioned by its own transform or by a transform behind it -/
+theorem pruned_from_spec (before after : List (Model.Preprocess.Tr × Info)) (cols : List CId) (i : Info) :
+    ∃ rest, (((before ++ (.from cols, i) :: after).reverse.foldl pruneStep ([], [])).2 =
+      (after.reverse.foldl pruneStep ([], [])).2 ++
+        (cols.filter (((after.reverse.foldl pruneStep ([], [])).1 ++ i.reads.getD []).contains ·)) :: rest) := by
+  simp only [List.reverse_append, List.reverse_cons, List.append_assoc, List.foldl_append, List.foldl_cons, List.foldl_nil]
+  generalize (after.reverse.foldl pruneStep ([], [])) = st0
+  have hstep : pruneStep st0 (.from cols, i) = (st0.1 ++ i.reads.getD [], st0.2 ++ [cols.filter ((st0.1 ++ i.reads.getD []).contains ·)]) := rfl
+  rw [hstep]
+  -- later steps only append
+  have mono : ∀ (l : List (Model.Preprocess.Tr × Info)) (st : List CId × List (List CId)), ∃ rest, (l.foldl pruneStep st).2 = st.2 ++ rest := by
+    intro l
+    induction l with
+    | nil => intro st; exact ⟨[], by simp⟩
+    | cons t ts ih =>
+      intro st
+      obtain ⟨r, hr⟩ := ih (pruneStep st t)
+      have : ∃ r0, (pruneStep st t).2 = st.2 ++ r0 := by
+        unfold pruneStep
+        cases t.1 with
+        | «from» c => exact ⟨_, rfl⟩
+        | join sd c f => exact ⟨_, rfl⟩
+        | _ => exact ⟨[], by simp⟩
+      obtain ⟨r0, hr0⟩ := this
+      exact ⟨r0 ++ r, by rw [List.foldl_cons, hr, hr0, List.append_assoc]⟩
+  obtain ⟨rest, hrest⟩ := mono before.reverse (st0.1 ++ i.reads.getD [], st0.2 ++ [cols.filter ((st0.1 ++ i.reads.getD []).contains ·)])
+  exact ⟨rest, by rw [hrest]; simp⟩
+
+open Model.Preprocess in
+theorem foldl_pruneStep_used (l : List (Model.Preprocess.Tr × Info)) (st : List CId × List (List CId)) :
+    (l.foldl pruneStep st).1 = st.1 ++ l.flatMap (fun t => t.2.reads.getD []) := by
+  induction l generalizing st with
+  | nil => simp
+  | cons t ts ih => rw [List.foldl_cons, ih, pruneStep_used]; simp [List.flatMap_cons, List.append_assoc]
+
+open Model.Preprocess in
+/-- the column list a From keeps: the columns its own transform or a transform BEHIND it mentions, in their order -/
+theorem pruned_from_mem (before after : List (Model.Preprocess.Tr × Info)) (cols : List CId) (i : Info) :
+    ∃ kept rest, ((before ++ (.from cols, i) :: after).reverse.foldl pruneStep ([], [])).2 =
+        (after.reverse.foldl pruneStep ([], [])).2 ++ kept :: rest ∧ kept.Sublist cols ∧
+      ∀ c, c ∈ kept ↔ c ∈ cols ∧ (c ∈ i.reads.getD [] ∨ ∃ t ∈ after, c ∈ t.2.reads.getD []) := by
+  obtain ⟨rest, h⟩ := pruned_from_spec before after cols i
+  refine ⟨_, rest, h, List.filter_sublist, ?_⟩
+  intro c
+  rw [foldl_pruneStep_used]
+  simp only [List.nil_append, List.mem_filter, List.contains_iff_mem, List.mem_append, List.mem_flatMap, List.mem_reverse]
+  constructor
+  · rintro ⟨hc, h1 | h2⟩
+    · exact ⟨hc, .inr h1⟩
+    · exact ⟨hc, .inl h2⟩
+  · rintro ⟨hc, h1 | h2⟩
+    · exact ⟨hc, .inr h1⟩
+    · exact ⟨hc, .inl h2⟩
+
 end Lemmas.Preprocess
